@@ -57,7 +57,7 @@ CLAIMED = {
          "Trusted: executor, solvers, exact math.Pow contract (its accuracy outside the claim), rounding budget. Lab->XYZ->Lab is thorough-only/undecided.", "DESIGN.md 5 C13"),
  "C14": ("model_checking", "bit-precise FP queries (alpha round trip for all alphas), symbolic wiring per space with uninterpreted tables, per-alpha real-arithmetic obligations with rounding-error variables, ground table lemma",
          "Alpha passes through decode and encode bit-identically for all 65536/256 alphas; every encoder writes a float32 alpha as 0 below 0, the maximum from 1 up (+Inf and huge values included) and round-half-up(alpha*max) inside, stated independently of the quantiser; constructors return exactly A/max and zero colour for transparent premultiplied/generic pixels; opaque constructors agree; linearised premultiplied channels stay <= alpha for every r<=a (symbolic r) for the explored alphas, given the exhaustively checked table lemma T16[r]<=r/65535.",
-         "Trusted: executor, solvers, IEEE rounding model for the real-arithmetic part; quick tier explores 1033 alphas (thorough: all). ColorFromNRGBA on a transparent pixel keeps the colour (not claimed).", "DESIGN.md 5 C14"),
+         "Trusted: executor, solvers, IEEE rounding model for the real-arithmetic part; quick tier explores 1033 alphas (thorough: 8201). ColorFromNRGBA on a transparent pixel keeps the colour (not claimed).", "DESIGN.md 5 C14"),
  "C15": ("model_checking", "bounded symbolic execution of the three conversion helpers against the real image/draw.Draw executed symbolically; all pixel bytes symbolic; bit-vector equality per output byte",
          "For 15 source types x 3 (thorough 8) geometries x 6 parallelism values, with every byte of pixel storage symbolic, the helper's Pix/Stride/Rect equal those produced by draw.Draw(Src) for all pixel contents at once; identity for same-type input; input unmodified.",
          "Trusted: executor incl. function-level merging and if-conversion (cross-validated natively on sampled models), z3, image/draw of Go 1.23.5 as the oracle; worker goroutines executed sequentially.", "DESIGN.md 5 C15"),
